@@ -70,7 +70,7 @@ func (w *World) locateOut(cs *connState, pos int) (int, int) {
 // drainOracles run at the quiescent point after the workload, with the engine
 // still running, fair scheduling and peers reading everything.
 func (w *World) drainOracles() {
-	healthy := !w.stopRequested && !w.runDone
+	healthy := !w.stopRequested && !w.stopEverAsked && !w.runDone
 	for _, cs := range w.conns {
 		if cs == nil || !cs.opened {
 			continue
@@ -177,7 +177,22 @@ func (w *World) finalOracles() {
 			}
 		}
 	}
-	stopWanted := w.stopRequested
+	for _, l := range w.regLost {
+		// accepted without error, but no result ever arrived
+		key := "register-no-result"
+		if w.runDone {
+			key = "register-no-result/engine-stopped"
+		}
+		w.violate("C19", key, "%s was accepted without error but its result channel never delivered anything (Run returned: %v)", l, w.runDone)
+		break
+	}
+	// descriptors handed to the application stay open and untouched
+	for _, fd := range w.userFds {
+		if !w.k.IsOpen(fd) || w.k.Owner(fd) != "user" {
+			w.violate("C07", "user-descriptor-closed", "descriptor %d handed out by Dup/DupListener is no longer open at the end of the run", fd)
+		}
+	}
+	stopWanted := w.stopRequested || w.stopEverAsked
 	if w.runDone {
 		if w.runErr != nil && stopWanted {
 			w.violate("C06", "run-error", "Run returned %v after an orderly shutdown request", w.runErr)
